@@ -430,3 +430,698 @@ Example C01_example_tree_wf :
   wf (Compose [Add [Conj (Flip [3; 2] (Some [-1])); Compose [Resize [3; 2] [3; 4] None None; Upsample [3; 4] [1; 2] [0; 0]]];
                Downsample [5; 4] [2; 2] [0; 0]; Resize [5; 4] [3; 3] (Some [0; 1]) None]) = true.
 Proof. vm_compute. reflexivity. Qed.
+
+
+(* ================================================================================================================
+   LIBRARY-BACKED LEAF CLASSES.  The node hypothesis of C01_adjoint_of_every_tree discharged, family by family, through
+   the function models of C05 / C08 / C07 / C10 / C06 (coq/model/Opaque*.v, coq/proofs/Opaque*.v; statements prepared
+   per family in notes/snippets), then assembled into ONE oracle and ONE theorem at the end of this file.
+   ================================================================================================================ *)
+
+(* ---- snippet for coq/props/Prop_C01.v (and the C04 statement): library-backed leaves FFT / IFFT -----------------
+   additional imports needed by the property file:
+     From SV Require Import model.Fourier model.OpaqueFourier proofs.Fourier1D proofs.FourierND proofs.FourierModel
+                            proofs.FourierExample proofs.OpaqueFourier.
+   (proofs.FourierExample only for QIRing in the Examples.)
+
+   orc_fourier tw isc inv (FFT s axes center)  = snd (fft_model tw isc inv false center true s None axes .)
+   orc_fourier tw isc inv (IFFT s axes center) = snd (fft_model tw isc inv true  center true s None axes .)
+   i.e. fourier.fft / ifft (input, axes=self.axes, center=self.center) with the defaults oshape=None, norm="ortho",
+   expressed with the function model of C05 (model/Fourier.v); tw n m = w_n^m, isc n = 1/sqrt n, inv n = 1/n (unused). *)
+From SV Require Import model.Fourier model.OpaqueFourier proofs.Fourier1D proofs.FourierND proofs.FourierModel
+  proofs.FourierExample proofs.OpaqueFourier.
+
+(* FFT.H = IFFT is the true adjoint: EVERY axes argument (None, empty, negative, unsorted, repeated, wrapped modulo ndim),
+   both values of center, every positive shape.  The only fact about the oracle data is that the scaling is real. *)
+Theorem C01_fourier_fft_adjoint :
+  forall (R : StarRing) (arr : Z -> list Z -> R) (scal : Z -> R) (orc : linop -> (list Z -> R) -> list Z -> R)
+         (tw : Z -> Z -> R) (isc inv : Z -> R) s ax c,
+    wf (FFT s ax c) = true ->
+    (forall n, 0 < n -> conj (isc n) = isc n) ->
+    (forall x, orc (FFT s ax c) x = orc_fourier tw isc inv (FFT s ax c) x) ->
+    (forall x, orc (IFFT s ax c) x = orc_fourier tw isc inv (IFFT s ax c) x) ->
+    apair R arr scal orc (FFT s ax c).
+Proof. exact proofs.OpaqueFourier.apair_fft. Qed.
+Print Assumptions C01_fourier_fft_adjoint.
+
+Theorem C01_fourier_ifft_adjoint :
+  forall (R : StarRing) (arr : Z -> list Z -> R) (scal : Z -> R) (orc : linop -> (list Z -> R) -> list Z -> R)
+         (tw : Z -> Z -> R) (isc inv : Z -> R) s ax c,
+    wf (IFFT s ax c) = true ->
+    (forall n, 0 < n -> conj (isc n) = isc n) ->
+    (forall x, orc (IFFT s ax c) x = orc_fourier tw isc inv (IFFT s ax c) x) ->
+    (forall x, orc (FFT s ax c) x = orc_fourier tw isc inv (FFT s ax c) x) ->
+    apair R arr scal orc (IFFT s ax c).
+Proof. exact proofs.OpaqueFourier.apair_ifft. Qed.
+Print Assumptions C01_fourier_ifft_adjoint.
+
+(* the function-level statement behind both: <fft x, y> = <x, ifft y> and <ifft x, y> = <x, fft y> for the call the
+   leaf makes (center=True: _fftc/_ifftc, center=False: numpy fftn/ifftn), repeated axes included *)
+Theorem C01_fourier_call_adjoint :
+  forall (R : StarRing) (tw : Z -> Z -> R) (isc inv : Z -> R),
+    (forall n, 0 < n -> conj (isc n) = isc n) ->
+    forall inverse s axes center (x y : list Z -> R),
+      Forall (fun n => 0 <= n) s ->
+      inner s (snd (fft_model tw isc inv inverse center true s None axes x)) y =
+      inner s x (snd (fft_model tw isc inv (negb inverse) center true s None axes y)).
+Proof. exact proofs.OpaqueFourier.fourier_call_adjoint. Qed.
+Print Assumptions C01_fourier_call_adjoint.
+
+(* the node lemma: plugs into C01_adjoint_of_every_tree (adj_correct) for the FFT / IFFT nodes.
+   proven_node_fourier (FFT s ax c) = fourier_axes_ok s ax c =
+     if c then 0 <? ndim                                   (center=True: a % ndim accepts any integer; 0-d arrays raise)
+     else axes = None \/ all (-ndim <= a < ndim)           (center=False: numpy's range check; repeated axes accepted) *)
+Theorem C01_fourier_nodes :
+  forall (R : StarRing) (arr : Z -> list Z -> R) (scal : Z -> R) (orc : linop -> (list Z -> R) -> list Z -> R)
+         (tw : Z -> Z -> R) (isc inv : Z -> R),
+    (forall L, fourier_leaf L = true -> forall x, orc L x = orc_fourier tw isc inv L x) ->
+    (forall n, 0 < n -> conj (isc n) = isc n) ->
+    forall L, proven_node_fourier L = true -> wf L = true -> apair R arr scal orc L.
+Proof. exact proofs.OpaqueFourier.nodes_fourier. Qed.
+Print Assumptions C01_fourier_nodes.
+
+(* ---- non-vacuity: accepted parameters (negative, unsorted, repeated modulo ndim; center=False with a repeated axis),
+   rejected ones, and exact oracle data in Q(i) (lengths 4 and 1) satisfying every hypothesis at once ---- *)
+Example C01_fourier_params_example :
+  wf (FFT [4; 1; 4] (Some [-1; 0; 2]) true) = true /\ proven_node_fourier (FFT [4; 1; 4] (Some [-1; 0; 2]) true) = true /\
+  wf (IFFT [4; 4] (Some [-2; 1; 1]) false) = true /\ proven_node_fourier (IFFT [4; 4] (Some [-2; 1; 1]) false) = true /\
+  proven_node_fourier (FFT [4; 4] (Some [2]) false) = false /\ proven_node_fourier (FFT [] None true) = false.
+Proof. exact proofs.OpaqueFourier.ex_fourier_params. Qed.
+
+Example C01_fourier_adjoint_example : forall (arr : Z -> list Z -> QIRing) (scal : Z -> QIRing),
+  apair QIRing arr scal (orc_fourier of_ex_tw of_ex_isc of_ex_inv) (FFT [4; 1; 4] (Some [-1; 0; 2]) true) /\
+  apair QIRing arr scal (orc_fourier of_ex_tw of_ex_isc of_ex_inv) (IFFT [4; 4] (Some [-2; 1; 1]) false).
+Proof. exact proofs.OpaqueFourier.ex_fourier_adjoint. Qed.
+
+(* ---- C01, library-backed leaves of the convolution family (ConvolveData / ConvolveDataAdjoint / ConvolveFilter /
+   ConvolveFilterAdjoint): the node hypothesis of C01_adjoint_of_every_tree discharged through the C08 function model.
+
+   orc_conv arr L (coq/model/OpaqueConv.v) is what the class's _apply computes, written with the C08 model
+   (coq/model/Conv.v: convolve, convolve_data_adjoint, convolve_filter_adjoint) and the class's own argument passing:
+     ConvolveData d f ..        x |-> convolve d (shape f) .. x f
+     ConvolveDataAdjoint d f .. y |-> convolve_data_adjoint (ishape = b ++ [c_o] ++ p) (shape f) d .. y f
+     ConvolveFilter fs dt ..    x |-> convolve (shape dt) fs .. dt x
+     ConvolveFilterAdjoint ..   y |-> convolve_filter_adjoint (ishape) (shape dt) fs .. y dt
+   with the captured array read from [arr] through its tag.  It is tied to the real classes by the exact
+   Gaussian-integer correspondence props/opaque_conv.py (chk_opaque_conv, coq/run/RunOpaqueConv.v).
+   proven_node_conv L  <->  L is one of the four classes, its captured array is non-empty (all lengths positive) and its
+   strides are None or positive; everything else the classes require (ranks, channel match, stride count, 'valid'
+   ordering, positive advertised shapes) is [wf L].  Any D >= 1, both modes, both multi_channel conventions, any batch.
+   Needs:  From SV Require Import model.Conv model.OpaqueConv proofs.OpaqueConv.   (and proofs.LinopStack proofs.LinopAll,
+   already imported by Prop_C01.v, for the last theorem) ---- *)
+From SV Require Import model.Conv model.OpaqueConv proofs.OpaqueConv.
+
+(* one leaf: if the oracle is the model denotation on L and on adj L, then <L x, y> = <x, L^H y> (shapes swapped) *)
+Theorem C01_conv_leaf_adjoint :
+  forall (R : StarRing) (arr : Z -> list Z -> R) (scal : Z -> R) (orc : linop -> (list Z -> R) -> list Z -> R) (L : linop),
+    proven_node_conv L = true -> wf L = true ->
+    (forall x o, orc L x o = orc_conv arr L x o) ->
+    (forall y i, orc (adj L) y i = orc_conv arr (adj L) y i) ->
+    apair R arr scal orc L.
+Proof. exact apair_conv. Qed.
+Print Assumptions C01_conv_leaf_adjoint.
+
+(* the same per class, validity spelled out *)
+Theorem C01_convolve_data_adjoint :
+  forall (R : StarRing) (arr : Z -> list Z -> R) (scal : Z -> R) (orc : linop -> (list Z -> R) -> list Z -> R)
+         d f full st mc,
+    wf (ConvolveData d f full st mc) = true -> all_pos (ashape_of f) = true -> strides_pos st = true ->
+    (forall x o, orc (ConvolveData d f full st mc) x o = orc_conv arr (ConvolveData d f full st mc) x o) ->
+    (forall y i, orc (ConvolveDataAdjoint d f full st mc) y i = orc_conv arr (ConvolveDataAdjoint d f full st mc) y i) ->
+    apair R arr scal orc (ConvolveData d f full st mc).
+Proof. exact apair_ConvolveData. Qed.
+Print Assumptions C01_convolve_data_adjoint.
+
+Theorem C01_convolve_data_adjoint_adjoint :
+  forall (R : StarRing) (arr : Z -> list Z -> R) (scal : Z -> R) (orc : linop -> (list Z -> R) -> list Z -> R)
+         d f full st mc,
+    wf (ConvolveDataAdjoint d f full st mc) = true -> all_pos (ashape_of f) = true -> strides_pos st = true ->
+    (forall y i, orc (ConvolveDataAdjoint d f full st mc) y i = orc_conv arr (ConvolveDataAdjoint d f full st mc) y i) ->
+    (forall x o, orc (ConvolveData d f full st mc) x o = orc_conv arr (ConvolveData d f full st mc) x o) ->
+    apair R arr scal orc (ConvolveDataAdjoint d f full st mc).
+Proof. exact apair_ConvolveDataAdjoint. Qed.
+Print Assumptions C01_convolve_data_adjoint_adjoint.
+
+Theorem C01_convolve_filter_adjoint :
+  forall (R : StarRing) (arr : Z -> list Z -> R) (scal : Z -> R) (orc : linop -> (list Z -> R) -> list Z -> R)
+         fs dt full st mc,
+    wf (ConvolveFilter fs dt full st mc) = true -> all_pos (ashape_of dt) = true -> strides_pos st = true ->
+    (forall x o, orc (ConvolveFilter fs dt full st mc) x o = orc_conv arr (ConvolveFilter fs dt full st mc) x o) ->
+    (forall y i, orc (ConvolveFilterAdjoint fs dt full st mc) y i = orc_conv arr (ConvolveFilterAdjoint fs dt full st mc) y i) ->
+    apair R arr scal orc (ConvolveFilter fs dt full st mc).
+Proof. exact apair_ConvolveFilter. Qed.
+Print Assumptions C01_convolve_filter_adjoint.
+
+Theorem C01_convolve_filter_adjoint_adjoint :
+  forall (R : StarRing) (arr : Z -> list Z -> R) (scal : Z -> R) (orc : linop -> (list Z -> R) -> list Z -> R)
+         fs dt full st mc,
+    wf (ConvolveFilterAdjoint fs dt full st mc) = true -> all_pos (ashape_of dt) = true -> strides_pos st = true ->
+    (forall y i, orc (ConvolveFilterAdjoint fs dt full st mc) y i = orc_conv arr (ConvolveFilterAdjoint fs dt full st mc) y i) ->
+    (forall x o, orc (ConvolveFilter fs dt full st mc) x o = orc_conv arr (ConvolveFilter fs dt full st mc) x o) ->
+    apair R arr scal orc (ConvolveFilterAdjoint fs dt full st mc).
+Proof. exact apair_ConvolveFilterAdjoint. Qed.
+Print Assumptions C01_convolve_filter_adjoint_adjoint.
+
+(* what is behind it, about the C08 model alone (no oracle): with the shapes the classes pass,
+   <convolve(x, filt), y> = <x, convolve_data_adjoint(y, filt, data_shape)>   and
+   <convolve(data, f), y> = <f, convolve_filter_adjoint(y, data, filt_shape)>,
+   a rejected call (Err) standing for the zero array — under the hypotheses none is rejected *)
+Theorem C01_conv_data_argument_passing :
+  forall (R : StarRing) (arr : Z -> list Z -> R) d f full st mc o,
+    conv_oshape d (ashape_of f) full st mc = Ok o -> all_pos o = true -> all_pos d = true ->
+    all_pos (ashape_of f) = true -> strides_pos st = true ->
+    forall x y,
+      inner o (conv_res (convolve d (ashape_of f) full st mc x (arr (atag f)))) y =
+      inner d x (conv_res (convolve_data_adjoint o (ashape_of f) d full st mc y (arr (atag f)))).
+Proof. exact conv_data_core. Qed.
+Print Assumptions C01_conv_data_argument_passing.
+
+Theorem C01_conv_filter_argument_passing :
+  forall (R : StarRing) (arr : Z -> list Z -> R) fs dt full st mc o,
+    conv_oshape (ashape_of dt) fs full st mc = Ok o -> all_pos o = true -> all_pos fs = true ->
+    all_pos (ashape_of dt) = true -> strides_pos st = true ->
+    forall x y,
+      inner o (conv_res (convolve (ashape_of dt) fs full st mc (arr (atag dt)) x)) y =
+      inner fs x (conv_res (convolve_filter_adjoint o (ashape_of dt) fs full st mc y (arr (atag dt)))).
+Proof. exact conv_filter_core. Qed.
+Print Assumptions C01_conv_filter_argument_passing.
+
+(* the form for C01_adjoint_of_every_tree / adj_correct_all': a boolean test on the node *)
+Theorem C01_conv_nodes :
+  forall (R : StarRing) (arr : Z -> list Z -> R) (scal : Z -> R) (orc : linop -> (list Z -> R) -> list Z -> R),
+    (forall L x o, proven_node_conv L = true -> orc L x o = orc_conv arr L x o) ->
+    forall L, proven_node_conv L = true -> wf L = true -> apair R arr scal orc L.
+Proof. exact nodes_conv. Qed.
+Print Assumptions C01_conv_nodes.
+
+(* with the model denotation itself as the oracle no hypothesis is left *)
+Theorem C01_conv_nodes_model_oracle :
+  forall (R : StarRing) (arr : Z -> list Z -> R) (scal : Z -> R) (L : linop),
+    proven_node_conv L = true -> wf L = true -> apair R arr scal (fun L x => orc_conv arr L x) L.
+Proof. exact nodes_conv_std. Qed.
+Print Assumptions C01_conv_nodes_model_oracle.
+
+(* every tree over all six combinators whose library-backed leaves are valid convolution leaves *)
+Theorem C01_adjoint_of_every_tree_with_convolution_leaves :
+  forall (R : StarRing) (arr : Z -> list Z -> R) (scal : Z -> R) (orc : linop -> (list Z -> R) -> list Z -> R) (A : linop),
+    (forall L x o, proven_node_conv L = true -> orc L x o = orc_conv arr L x o) ->
+    wf A = true ->
+    nodes_ok' (fun L => (proven_all L = true /\ wf L = true) \/ (proven_node_conv L = true /\ wf L = true)) A ->
+    apair R arr scal orc A /\ adj_shape_ok A.
+Proof. exact adj_correct_with_conv. Qed.
+Print Assumptions C01_adjoint_of_every_tree_with_convolution_leaves.
+
+(* the predicate is satisfiable by non-trivial instances: 2-D multi-channel 'valid' with strides (2,1), batch 2;
+   1-D single-channel 'full' with a filter longer than the data; both the data-side and the filter-side classes *)
+Example C01_conv_valid_satisfiable :
+  let L1 := ConvolveData [2; 2; 5; 4] (ARef 1 [3; 2; 2; 3]) false (Some [2; 1]) true in
+  let L2 := ConvolveDataAdjoint [2; 3] (ARef 2 [5]) true None false in
+  let L3 := ConvolveFilter [3; 2; 2; 3] (ARef 3 [2; 2; 5; 4]) false (Some [2; 1]) true in
+  let L4 := ConvolveFilterAdjoint [5] (ARef 4 [2; 3]) true None false in
+  (wf L1 && proven_node_conv L1 && zlist_eqb (oshape_of L1) [2; 3; 2; 2] &&
+   wf L2 && proven_node_conv L2 && zlist_eqb (ishape_of L2) [2; 7] &&
+   wf L3 && proven_node_conv L3 && zlist_eqb (oshape_of L3) [2; 3; 2; 2] &&
+   wf L4 && proven_node_conv L4 && zlist_eqb (ishape_of L4) [2; 7]) = true.
+Proof. exact conv_valid_satisfiable. Qed.
+
+
+(* ---- C01, library-backed leaves of the interpolation family (Interpolate / Gridding): the node hypothesis of
+   C01_adjoint_of_every_tree discharged through the C07 function model.
+
+   orc_interp R C wt carr kern_of width_of param_of L (coq/model/OpaqueInterp.v) is what the class's _apply computes, written
+   with the C07 model (coq/model/Interp.v: the hand-modelled wrappers `interpolate` / `gridding` around the numba kernels
+   GENERATED from sigpy/interp.py) and the class's own argument passing:
+     Interpolate ishape c k w p   x |-> interpolate ishape (shape c) (carr (tag c)) (kern_of k) (width_of w) (param_of p) x
+     Gridding    oshape c k w p   y |-> gridding (shape c) oshape (carr (tag c)) (kern_of k) (width_of w) (param_of p) y
+   The environment decodes what vlib/linser.py encodes: carr = captured coordinate arrays by tag (values in the separate
+   coordinate type C : COps), kern_of / width_of / param_of = kernel name, scalar-or-per-axis width and param by code;
+   wt : C -> R embeds a (real) weight into the data scalars.  It is tied to the real classes by the PrimFloat
+   correspondence props/opaque_interp.py (chk_opaque_interp, coq/run/RunOpaqueInterp.v).
+   proven_node_interp L  <->  L is one of the two classes, coord.shape = pts_shape ++ [ndim] with ndim in {1, 2, 3} and the
+   grid shape has at least ndim axes (what the classes need in order to run: three kernels per table, rank ndim + 1 after
+   batch flattening); positivity of all extents is [wf L].  Any batch shape, any point-set shape, any width / param /
+   kernel function, any coordinates.  The only oracle fact is the one C07's transpose theorems already assume: the
+   interpolation weights are real (conj (wt w) = wt w).
+   normal L is the default composition A.H * A for both classes (no _normal_linop override): nothing to add for C04.
+   Needs:  From SV Require Import lib.LoopIR lib.Coord gen.Gen_interp model.Interp model.OpaqueInterp proofs.OpaqueInterp.
+   (and proofs.LinopStack proofs.LinopAll, already imported by Prop_C01.v, for the last theorem) ---- *)
+From SV Require Import lib.LoopIR lib.Coord gen.Gen_interp model.Interp model.OpaqueInterp proofs.OpaqueInterp.
+
+(* Interpolate(ishape, coord, kernel, width, param): <A x, y> = <x, A.H y> with A.H = Gridding(ishape, coord, kernel, width, param) *)
+Theorem C01_interpolate_adjoint :
+  forall (R : StarRing) (C : COps) (arr : Z -> list Z -> R) (scal : Z -> R) (orc : linop -> (list Z -> R) -> list Z -> R)
+         (wt : C -> R) (carr : Z -> list Z -> C) (kern_of : Z -> C -> C -> C) (width_of param_of : Z -> wp C),
+    (forall w, conj (wt w) = wt w) ->
+    forall i c k w p,
+    interp_ok i c = true -> wf (Interpolate i c k w p) = true ->
+    (forall x o, orc (Interpolate i c k w p) x o = orc_interp R C wt carr kern_of width_of param_of (Interpolate i c k w p) x o) ->
+    (forall y o, orc (Gridding i c k w p) y o = orc_interp R C wt carr kern_of width_of param_of (Gridding i c k w p) y o) ->
+    apair R arr scal orc (Interpolate i c k w p).
+Proof. exact apair_interpolate. Qed.
+Print Assumptions C01_interpolate_adjoint.
+
+(* Gridding(oshape, coord, kernel, width, param): A.H = Interpolate(oshape, coord, kernel, width, param) *)
+Theorem C01_gridding_adjoint :
+  forall (R : StarRing) (C : COps) (arr : Z -> list Z -> R) (scal : Z -> R) (orc : linop -> (list Z -> R) -> list Z -> R)
+         (wt : C -> R) (carr : Z -> list Z -> C) (kern_of : Z -> C -> C -> C) (width_of param_of : Z -> wp C),
+    (forall w, conj (wt w) = wt w) ->
+    forall o c k w p,
+    interp_ok o c = true -> wf (Gridding o c k w p) = true ->
+    (forall y i, orc (Gridding o c k w p) y i = orc_interp R C wt carr kern_of width_of param_of (Gridding o c k w p) y i) ->
+    (forall x i, orc (Interpolate o c k w p) x i = orc_interp R C wt carr kern_of width_of param_of (Interpolate o c k w p) x i) ->
+    apair R arr scal orc (Gridding o c k w p).
+Proof. exact apair_gridding. Qed.
+Print Assumptions C01_gridding_adjoint.
+
+(* the engine: ANY adjoint pair of kernels on the flattened shapes [batch_size] ++ grid <-> [batch_size; npts] lifts through
+   the batch / point flattening wrappers (input.reshape, output.reshape) of sigpy.interp *)
+Theorem C01_interp_wrappers_lift_adjoint_pairs :
+  forall (R : StarRing) (bat grid pts : list Z) (FK GK : (list Z -> R) -> list Z -> R),
+    Forall (fun n => 0 < n) bat -> Forall (fun n => 0 < n) pts ->
+    adjoint_pair R (prodZ bat :: grid) [prodZ bat; prodZ pts] FK GK ->
+    adjoint_pair R (bat ++ grid) (bat ++ pts)
+      (fun x => unflat_pts R bat pts (FK (flatten_batch R bat x)))
+      (fun y => unflatten_batch R bat (length bat) (GK (flat_pts R bat pts y))).
+Proof. exact wrap_pair. Qed.
+Print Assumptions C01_interp_wrappers_lift_adjoint_pairs.
+
+(* the 1-D generated kernels run from a zero buffer are adjoint (2-D / 3-D: C07_gridding2/3_is_transpose_of_interpolate2/3) *)
+Theorem C01_interp_kernel1_adjoint :
+  forall (R : StarRing) (C : COps) (kern : C -> C -> C) (wt : C -> R),
+    (forall w, conj (wt w) = wt w) ->
+    forall coord width param cs ps ws gsh psh batch nx npts,
+    shape_at cs 0 = npts -> shape_at gsh 0 = batch ->
+    forall x y : list Z -> R,
+    shape_at gsh 1 = nx -> 0 < nx ->
+      inner [batch; npts] (exec (k_interpolate1 R C kern wt x coord width param cs gsh psh ps ws) [] (fun _ => zero)) y =
+      inner [batch; nx] x (exec (k_gridding1 R C kern wt y coord width param cs psh gsh ps ws) [] (fun _ => zero)).
+Proof. exact k_interp1_gridding1_adjoint. Qed.
+Print Assumptions C01_interp_kernel1_adjoint.
+
+(* the boolean node predicate, ready for adj_correct / C01_adjoint_of_every_tree *)
+Theorem C01_interp_nodes :
+  forall (R : StarRing) (C : COps) (arr : Z -> list Z -> R) (scal : Z -> R) (orc : linop -> (list Z -> R) -> list Z -> R)
+         (wt : C -> R) (carr : Z -> list Z -> C) (kern_of : Z -> C -> C -> C) (width_of param_of : Z -> wp C),
+    (forall w, conj (wt w) = wt w) ->
+    (forall L, proven_node_interp L = true ->
+               forall x o, orc L x o = orc_interp R C wt carr kern_of width_of param_of L x o) ->
+    forall L, proven_node_interp L = true -> wf L = true -> apair R arr scal orc L.
+Proof. exact nodes_interp. Qed.
+Print Assumptions C01_interp_nodes.
+
+(* every Conj / + / - / scaling / composition tree over Interpolate / Gridding leaves with valid parameters *)
+Theorem C01_adjoint_interp_fragment :
+  forall (R : StarRing) (C : COps) (arr : Z -> list Z -> R) (scal : Z -> R) (orc : linop -> (list Z -> R) -> list Z -> R)
+         (wt : C -> R) (carr : Z -> list Z -> C) (kern_of : Z -> C -> C -> C) (width_of param_of : Z -> wp C),
+    (forall w, conj (wt w) = wt w) ->
+    (forall L, proven_node_interp L = true ->
+               forall x o, orc L x o = orc_interp R C wt carr kern_of width_of param_of L x o) ->
+    forall A, wf A = true -> nodes_ok (fun L => proven_node_interp L = true /\ wf L = true) A ->
+    forall x y, inner (oshape_of A) (D R arr scal orc A x) y = inner (ishape_of A) x (D R arr scal orc (adj A) y).
+Proof. exact adj_correct_interp. Qed.
+Print Assumptions C01_adjoint_interp_fragment.
+
+(* through ALL six combinators, mixing every leaf class with a modelled denotation (proven_all) with the family *)
+Theorem C01_adjoint_of_every_operator_with_interp :
+  forall (R : StarRing) (C : COps) (arr : Z -> list Z -> R) (scal : Z -> R) (orc : linop -> (list Z -> R) -> list Z -> R)
+         (wt : C -> R) (carr : Z -> list Z -> C) (kern_of : Z -> C -> C -> C) (width_of param_of : Z -> wp C),
+    (forall w, conj (wt w) = wt w) ->
+    (forall L, proven_node_interp L = true ->
+               forall x o, orc L x o = orc_interp R C wt carr kern_of width_of param_of L x o) ->
+    forall A, wf A = true ->
+    nodes_ok' (fun L => (proven_all L = true /\ wf L = true) \/ (proven_node_interp L = true /\ wf L = true)) A ->
+    (forall x y, inner (oshape_of A) (D R arr scal orc A x) y = inner (ishape_of A) x (D R arr scal orc (adj A) y)) /\
+    (forall o i, shapes A = Ok (o, i) -> shapes (adj A) = Ok (i, o)).
+Proof. exact adj_correct_all_interp. Qed.
+Print Assumptions C01_adjoint_of_every_operator_with_interp.
+
+(* non-vacuity: valid parameters (2 batch axes, 3-D grid with a length-1 axis, 2-D point set), both classes, the adjoint
+   stays in the fragment; invalid parameters are rejected; a tree through all six combinators; an exact Z instance of the
+   whole chain  class denotation -> wrappers -> generated kernels  to which the theorem applies *)
+Example C01_interp_valid_example :
+  let L := Interpolate [2; 1; 4; 1; 5] (ARef 7 [3; 2; 3]) 1 2 3 in
+  proven_node_interp L = true /\ wf L = true /\ oshape_of L = [2; 1; 3; 2] /\ ishape_of L = [2; 1; 4; 1; 5] /\
+  adj L = Gridding [2; 1; 4; 1; 5] (ARef 7 [3; 2; 3]) 1 2 3 /\ proven_node_interp (adj L) = true /\ wf (adj L) = true /\
+  oshape_of (adj L) = [2; 1; 4; 1; 5] /\ ishape_of (adj L) = [2; 1; 3; 2].
+Proof. exact interp_valid_example. Qed.
+
+Example C01_interp_invalid_examples :
+  proven_node_interp (Interpolate [4; 4; 4; 4] (ARef 7 [3; 4]) 1 2 3) = false /\
+  proven_node_interp (Gridding [5] (ARef 7 [3; 2]) 1 2 3) = false.
+Proof. exact interp_invalid_examples. Qed.
+
+Example C01_interp_all_example :
+  let c := ARef 7 [3; 2] in
+  let I := Interpolate [2; 4; 5] c 1 2 3 in
+  let G := Gridding [2; 4; 5] c 1 2 3 in
+  let A := Add [Compose [G; Hstack [Multiply [2; 3] (MArray (ARef 9 [2; 3])) true; Identity [2; 3]] (Some 0);
+                         Vstack [I; Conj I] (Some 0)];
+                op_lscale 5 (Compose [G; Hstack [Identity [2; 3]; Identity [2; 3]] (Some (-2)); Diag [I; I] (Some 0) (Some 0);
+                                      Vstack [Identity [2; 4; 5]; Flip [2; 4; 5] None] (Some 0)])] in
+  wf A = true /\ oshape_of A = [2; 4; 5] /\ ishape_of A = [2; 4; 5] /\
+  nodes_ok' (fun L => (proven_all L = true /\ wf L = true) \/ (proven_node_interp L = true /\ wf L = true)) A.
+Proof. exact interp_all_example. Qed.
+
+
+(* ---- library-backed leaves Wavelet / InverseWavelet (model/OpaqueWavelet.v, proofs/OpaqueWavelet.v) ----
+   needs, in addition to the imports of Prop_C01.v:
+     From SV Require Import model.Wavelet model.OpaqueWavelet proofs.Wavelet proofs.OpaqueWavelet.
+
+   orc_wavelet cs WW WWr L  is what the class L hands to sigpy.wavelet.fwt / iwt (read off linop.py), written with the
+   C10 function model:   Wavelet i ax w l _         |->  snd (fwt (cs ax w l) (WW ax w l) i x)
+                         InverseWavelet o ax w l _  |->  snd (iwt (WWr ax w l) (zshape o) o x)
+   (cs, WW, WWr) is PyWavelets: packed coefficient shape, coeffs_to_array . wavedecn(mode='zero'),
+   waverecn(mode='zero') . array_to_coeffs — indexed by (axes as given, wavelet code, level), then by the padded shape
+   as in Prop_C10.  The PyWavelets fact is the hypothesis of C10_iwt_is_adjoint, at the leaf's (axes, wave, level). *)
+From SV Require Import model.Wavelet model.OpaqueWavelet proofs.Wavelet proofs.OpaqueWavelet.
+
+Theorem C01_wavelet_adjoint :
+  forall (R : StarRing) (arr : Z -> list Z -> R) (scal : Z -> R) (orc : linop -> (list Z -> R) -> list Z -> R)
+         (cs : option (list Z) -> Z -> option Z -> list Z -> list Z)
+         (WW WWr : option (list Z) -> Z -> option Z -> list Z -> (list Z -> R) -> list Z -> R)
+         (i : list Z) (ax : option (list Z)) (w : Z) (l : option Z) (ws : list Z),
+    ws = wavelet_shape (cs ax w l) i ->                                   (* oshape = get_wavelet_shape(ishape, ...) *)
+    (forall x, orc (Wavelet i ax w l ws) x = orc_wavelet cs WW WWr (Wavelet i ax w l ws) x) ->
+    (forall x, orc (InverseWavelet i ax w l ws) x = orc_wavelet cs WW WWr (InverseWavelet i ax w l ws) x) ->
+    wf (Wavelet i ax w l ws) = true ->
+    (forall a c : list Z -> R,
+        inner (cs ax w l (zshape i)) (WW ax w l (zshape i) a) c = inner (zshape i) a (WWr ax w l (zshape i) c)) ->
+    apair R arr scal orc (Wavelet i ax w l ws).
+Proof. exact apair_wavelet. Qed.
+Print Assumptions C01_wavelet_adjoint.
+
+Theorem C01_inverse_wavelet_adjoint :
+  forall (R : StarRing) (arr : Z -> list Z -> R) (scal : Z -> R) (orc : linop -> (list Z -> R) -> list Z -> R)
+         (cs : option (list Z) -> Z -> option Z -> list Z -> list Z)
+         (WW WWr : option (list Z) -> Z -> option Z -> list Z -> (list Z -> R) -> list Z -> R)
+         (o : list Z) (ax : option (list Z)) (w : Z) (l : option Z) (ws : list Z),
+    ws = wavelet_shape (cs ax w l) o ->                                   (* ishape = get_wavelet_shape(oshape, ...) *)
+    (forall x, orc (Wavelet o ax w l ws) x = orc_wavelet cs WW WWr (Wavelet o ax w l ws) x) ->
+    (forall x, orc (InverseWavelet o ax w l ws) x = orc_wavelet cs WW WWr (InverseWavelet o ax w l ws) x) ->
+    wf (InverseWavelet o ax w l ws) = true ->
+    (forall a c : list Z -> R,
+        inner (cs ax w l (zshape o)) (WW ax w l (zshape o) a) c = inner (zshape o) a (WWr ax w l (zshape o) c)) ->
+    apair R arr scal orc (InverseWavelet o ax w l ws).
+Proof. exact apair_inverse_wavelet. Qed.
+Print Assumptions C01_inverse_wavelet_adjoint.
+
+(* the node lemma for C01_adjoint_of_every_tree / ..._every_operator: a boolean check of the leaf's parameters
+   (wavelet_leaf_ok: ndim >= 1; axes None or non-empty, in [-ndim, ndim), distinct after normalisation; level None or
+   >= 0; wavelet code in the orthogonal set [orth]; stored coefficient shape = get_wavelet_shape), with the PyWavelets
+   fact assumed for all such arguments *)
+Theorem C01_wavelet_nodes :
+  forall (R : StarRing) (arr : Z -> list Z -> R) (scal : Z -> R) (orc : linop -> (list Z -> R) -> list Z -> R)
+         (cs : option (list Z) -> Z -> option Z -> list Z -> list Z)
+         (WW WWr : option (list Z) -> Z -> option Z -> list Z -> (list Z -> R) -> list Z -> R) (orth : Z -> bool),
+    (forall L, is_wavelet_leaf L = true -> forall x, orc L x = orc_wavelet cs WW WWr L x) ->
+    forall L,
+    (forall s ax w l, Forall (fun n => 0 < n) s ->
+        pywt_axes_ok (lenZ s) ax = true -> pywt_level_ok l = true -> orth w = true ->
+        forall a c : list Z -> R,
+          inner (cs ax w l (zshape s)) (WW ax w l (zshape s) a) c = inner (zshape s) a (WWr ax w l (zshape s) c)) ->
+    proven_node_wavelet cs orth L = true -> wf L = true -> apair R arr scal orc L.
+Proof. exact nodes_wavelet. Qed.
+Print Assumptions C01_wavelet_nodes.
+
+Theorem C01_wavelet_nodes_closed_under_adjoint :
+  forall cs orth L, proven_node_wavelet cs orth L = true -> proven_node_wavelet cs orth (adj L) = true.
+Proof. exact proven_node_wavelet_adj. Qed.
+Print Assumptions C01_wavelet_nodes_closed_under_adjoint.
+
+Theorem C01_wavelet_adjoint_shapes :
+  forall L, is_wavelet_leaf L = true -> forall o i, shapes L = Ok (o, i) -> shapes (adj L) = Ok (i, o).
+Proof. exact adj_shape_wavelet_leaf. Qed.
+Print Assumptions C01_wavelet_adjoint_shapes.
+
+(* non-vacuity *)
+Example C01_wavelet_parameters_example :
+  let cs := fun (ax : option (list Z)) (w : Z) (l : option Z) (zsh : list Z) => map (fun n => n + 2) zsh in
+  let orth := fun w => (w =? 3) || (w =? 5) in
+  wavelet_leaf_ok orth cs (Wavelet [5; 3; 4] (Some [-1; 0]) 3 (Some 2) [8; 6; 6]) = true /\
+  wf (Wavelet [5; 3; 4] (Some [-1; 0]) 3 (Some 2) [8; 6; 6]) = true /\
+  wavelet_leaf_ok orth cs (InverseWavelet [5; 3; 4] None 5 None [8; 6; 6]) = true /\
+  wf (InverseWavelet [5; 3; 4] None 5 None [8; 6; 6]) = true.
+Proof. vm_compute. repeat split; reflexivity. Qed.
+
+
+(* ---- library-backed leaves NUFFT / NUFFTAdjoint (model/OpaqueNufft.v, proofs/OpaqueNufft.v) ----
+   additional imports for Prop_C01.v (this text compiles as is after the header of Prop_C01.v plus these two lines):
+     From Coq Require Import PrimFloat.     (* only for the hex float literal of C01_nufft_example *)
+     From SV Require Import lib.Coord gen.Gen_interp model.Interp model.Fourier model.Nufft model.OpaqueNufft
+       proofs.Fourier1D proofs.FourierModel proofs.OpaqueNufft.
+   (gen.Gen_interp enters the proof cone of C01 through model/Nufft.v: the check must run the interp translator first,
+    as props/C06.py does.)
+
+   orc_nufft = what the classes' _apply computes, written with the C06 function model:
+     NUFFT(ishape, coord, oversamp, width, toeplitz)   x |-> nufft(x, coord, oversamp, width)
+     NUFFTAdjoint(oshape, coord, oversamp, width)      y |-> nufft_adjoint(y, coord, oshape, oversamp, width), input shape
+                                                             oshape[:-ndim] + coord.shape[:-1]
+   carr = captured coordinate arrays (coordinate scalars C) by tag, osv / wdv = values of the oversamp / width codes.
+   Oracle hypotheses, in the form C05 / C06 / C07 state them: wt real; w_n primitive n-th roots of unity with
+   inv n = 1/n (numpy.fft); wt (m / c) = m * wt (1 / c) (C06 assumes the instance m = prod(os_shape[-ndim:]),
+   c = sqrt(prod(shape[-ndim:]))).  NOT a hypothesis any more: interpolate / gridding succeed and are an adjoint pair
+   (proved here for the python wrappers, ndim = 1, 2, 3, any batch axes, any point-array rank). *)
+From Coq Require Import PrimFloat.   (* only for the hex float literal of C01_nufft_example *)
+From SV Require Import lib.Scalar.    (* re-import: PrimFloat's mul / add / ... must not shadow the ring operations *)
+From SV Require Import lib.Coord gen.Gen_interp model.Interp model.Fourier model.Nufft model.OpaqueNufft
+  proofs.Fourier1D proofs.FourierModel proofs.OpaqueNufft.
+
+(* the wrappers interp.interpolate / interp.gridding of model/Interp.v are an exact adjoint pair, with the shapes
+   python computes (batch = grid.shape[:-ndim], k-space shape = batch + coord.shape[:-1]) *)
+Theorem C01_nufft_interp_wrappers_adjoint :
+  forall (R : StarRing) (C : COps) (kern : C -> C -> C) (wt : C -> R), (forall c, conj (wt c) = wt c) ->
+  forall gshape cshape (coord : list Z -> C) (width param : wp C),
+    let ndim := Z.to_nat (last cshape 0) in
+    let ksh := droplast ndim gshape ++ droplast 1 cshape in
+    (1 <= length cshape)%nat -> (1 <= ndim <= 3)%nat -> (ndim <= length gshape)%nat ->
+    Forall (fun n => 0 < n) gshape -> Forall (fun n => 0 < n) (droplast 1 cshape) ->
+    exists I G : (list Z -> R) -> list Z -> R,
+      (forall x, interpolate R C kern wt gshape cshape coord width param x = Ok (ksh, I x)) /\
+      (forall y, gridding R C kern wt ksh cshape gshape coord width param y = Ok (G y)) /\
+      (forall x y, inner ksh (I x) y = inner gshape x (G y)).
+Proof. exact interp_wrappers_adjoint. Qed.
+Print Assumptions C01_nufft_interp_wrappers_adjoint.
+
+(* fourier.nufft / fourier.nufft_adjoint succeed with the shapes the Linop classes advertise and are EXACT adjoints, with
+   NO interpolate/gridding or FFT-pair hypothesis left (C06_nufft_adjoint_exact with its oracles discharged) *)
+Theorem C01_nufft_function_pair :
+  forall (R : StarRing) (C : COps) (kern : C -> C -> C) (wt : C -> R) (csqrt : C -> C) (cpi : C) (csinh : C -> C)
+         (w isc inv : Z -> R),
+    (forall c, conj (wt c) = wt c) ->
+    (forall n, 0 < n -> root_ok R n (w n)) -> (forall n, 0 < n -> mul (inv n) (nR n) = one) ->
+    (forall (m : Z) (c : C), 0 <= m -> wt (cdiv (cofZ m) c) = mul (nR m) (wt (cdiv (cofZ 1) c))) ->
+  forall ishape cshape (coord : list Z -> C) (oversamp width : C),
+    nufft_okb C ishape cshape oversamp = true ->
+    Forall (fun n => 0 < n) ishape -> Forall (fun n => 0 < n) (nufft_pts cshape) ->
+    let ksh := nufft_kshape ishape cshape in
+    exists A AH : (list Z -> R) -> list Z -> R,
+      (forall x, nufft R C kern wt csqrt cpi csinh (twf R w) isc inv ishape cshape coord oversamp width x = Ok (ksh, A x)) /\
+      (forall y, nufft_adjoint R C kern wt csqrt cpi csinh (twf R w) isc inv ksh cshape ishape coord oversamp width y = Ok (ishape, AH y)) /\
+      (forall x y, inner ksh (A x) y = inner ishape x (AH y)).
+Proof. exact nufft_function_pair. Qed.
+Print Assumptions C01_nufft_function_pair.
+
+(* NUFFT(ishape, coord, oversamp, width, toeplitz).H is its exact adjoint — toeplitz = False AND True (the flag is not
+   read by _apply / _adjoint_linop; it only switches _normal_linop, see below) *)
+Theorem C01_nufft_adjoint :
+  forall (R : StarRing) (C : COps) (kern : C -> C -> C) (wt : C -> R) (csqrt : C -> C) (cpi : C) (csinh : C -> C)
+         (w isc inv : Z -> R),
+    (forall c, conj (wt c) = wt c) ->
+    (forall n, 0 < n -> root_ok R n (w n)) -> (forall n, 0 < n -> mul (inv n) (nR n) = one) ->
+    (forall (m : Z) (c : C), 0 <= m -> wt (cdiv (cofZ m) c) = mul (nR m) (wt (cdiv (cofZ 1) c))) ->
+  forall arr scal orc (carr : Z -> list Z -> C) (osv wdv : Z -> C) i c os wd tz,
+    wf (NUFFT i c os wd tz) = true -> nufft_okb C i (ashape_of c) (osv os) = true ->
+    (forall x, orc (NUFFT i c os wd tz) x =
+               orc_nufft R C kern wt csqrt cpi csinh (twf R w) isc inv carr osv wdv (NUFFT i c os wd tz) x) ->
+    (forall y, orc (adj (NUFFT i c os wd tz)) y =
+               orc_nufft R C kern wt csqrt cpi csinh (twf R w) isc inv carr osv wdv (adj (NUFFT i c os wd tz)) y) ->
+    apair R arr scal orc (NUFFT i c os wd tz).
+Proof. exact apair_nufft. Qed.
+Print Assumptions C01_nufft_adjoint.
+
+(* NUFFTAdjoint(oshape, coord, oversamp, width).H = NUFFT(oshape, coord, oversamp, width) is its exact adjoint *)
+Theorem C01_nufft_adjoint_class_adjoint :
+  forall (R : StarRing) (C : COps) (kern : C -> C -> C) (wt : C -> R) (csqrt : C -> C) (cpi : C) (csinh : C -> C)
+         (w isc inv : Z -> R),
+    (forall c, conj (wt c) = wt c) ->
+    (forall n, 0 < n -> root_ok R n (w n)) -> (forall n, 0 < n -> mul (inv n) (nR n) = one) ->
+    (forall (m : Z) (c : C), 0 <= m -> wt (cdiv (cofZ m) c) = mul (nR m) (wt (cdiv (cofZ 1) c))) ->
+  forall arr scal orc (carr : Z -> list Z -> C) (osv wdv : Z -> C) o c os wd,
+    wf (NUFFTAdjoint o c os wd) = true -> nufft_okb C o (ashape_of c) (osv os) = true ->
+    (forall y, orc (NUFFTAdjoint o c os wd) y =
+               orc_nufft R C kern wt csqrt cpi csinh (twf R w) isc inv carr osv wdv (NUFFTAdjoint o c os wd) y) ->
+    (forall x, orc (adj (NUFFTAdjoint o c os wd)) x =
+               orc_nufft R C kern wt csqrt cpi csinh (twf R w) isc inv carr osv wdv (adj (NUFFTAdjoint o c os wd)) x) ->
+    apair R arr scal orc (NUFFTAdjoint o c os wd).
+Proof. exact apair_nufft_adjoint. Qed.
+Print Assumptions C01_nufft_adjoint_class_adjoint.
+
+(* the node lemma: a boolean check replaces the adjointness hypothesis of every NUFFT / NUFFTAdjoint node *)
+Theorem C01_nufft_nodes :
+  forall (R : StarRing) (C : COps) (kern : C -> C -> C) (wt : C -> R) (csqrt : C -> C) (cpi : C) (csinh : C -> C)
+         (w isc inv : Z -> R),
+    (forall c, conj (wt c) = wt c) ->
+    (forall n, 0 < n -> root_ok R n (w n)) -> (forall n, 0 < n -> mul (inv n) (nR n) = one) ->
+    (forall (m : Z) (c : C), 0 <= m -> wt (cdiv (cofZ m) c) = mul (nR m) (wt (cdiv (cofZ 1) c))) ->
+  forall arr scal orc (carr : Z -> list Z -> C) (osv wdv : Z -> C),
+    (forall L x, is_nufft L = true ->
+                 orc L x = orc_nufft R C kern wt csqrt cpi csinh (twf R w) isc inv carr osv wdv L x) ->
+    forall L, proven_node_nufft C osv L = true -> wf L = true -> apair R arr scal orc L.
+Proof. exact nodes_nufft. Qed.
+Print Assumptions C01_nufft_nodes.
+
+(* ... plugged into C01_adjoint_of_every_tree: NUFFT nodes pass the boolean check, every other node brings Q *)
+Theorem C01_adjoint_of_every_tree_with_nufft :
+  forall (R : StarRing) (C : COps) (kern : C -> C -> C) (wt : C -> R) (csqrt : C -> C) (cpi : C) (csinh : C -> C)
+         (w isc inv : Z -> R),
+    (forall c, conj (wt c) = wt c) ->
+    (forall n, 0 < n -> root_ok R n (w n)) -> (forall n, 0 < n -> mul (inv n) (nR n) = one) ->
+    (forall (m : Z) (c : C), 0 <= m -> wt (cdiv (cofZ m) c) = mul (nR m) (wt (cdiv (cofZ 1) c))) ->
+  forall arr scal orc (carr : Z -> list Z -> C) (osv wdv : Z -> C),
+    (forall L x, is_nufft L = true ->
+                 orc L x = orc_nufft R C kern wt csqrt cpi csinh (twf R w) isc inv carr osv wdv L x) ->
+    forall A, wf A = true ->
+      nodes_ok (fun L => (proven_node_nufft C osv L = true /\ wf L = true) \/ apair R arr scal orc L) A ->
+      apair R arr scal orc A.
+Proof. exact adj_correct_with_nufft. Qed.
+Print Assumptions C01_adjoint_of_every_tree_with_nufft.
+
+(* shapes of .H are the swapped ones for every parameter; the validity predicate is closed under adj *)
+Theorem C01_nufft_adjoint_shapes :
+  forall L o i, is_nufft L = true -> shapes L = Ok (o, i) -> shapes (adj L) = Ok (i, o).
+Proof. exact adj_shapes_nufft. Qed.
+Print Assumptions C01_nufft_adjoint_shapes.
+Theorem C01_nufft_predicate_closed_under_adjoint :
+  forall (C : COps) (osv : Z -> C) L, proven_node_nufft C osv L = true -> proven_node_nufft C osv (adj L) = true.
+Proof. exact proven_node_nufft_adj. Qed.
+Print Assumptions C01_nufft_predicate_closed_under_adjoint.
+
+(* non-vacuity: the predicate on float parameters (oversamp 1.25), 2-D + batch + toeplitz and 3-D adjoint with a 2-D
+   point array; rejected constructor arguments; the wt hypotheses hold for Q -> Q(i) *)
+Example C01_nufft_example :
+  let osv := fun _ : Z => 0x1.4p+0%float in
+  let L := NUFFT [2; 5; 6] (ARef 1 [7; 2]) 1 2 true in
+  let M := NUFFTAdjoint [3; 4; 5; 6] (ARef 2 [2; 3; 3]) 1 2 in
+  wf L = true /\ proven_node_nufft FCOps osv L = true /\ proven_node_nufft FCOps osv (adj L) = true /\
+  oshape_of L = [2; 7] /\ oversamp_shape FCOps [2; 5; 6] 2 0x1.4p+0%float = [2; 7; 8] /\
+  wf M = true /\ proven_node_nufft FCOps osv M = true /\ ishape_of M = [3; 2; 3] /\ adj M = NUFFT [3; 4; 5; 6] (ARef 2 [2; 3; 3]) 1 2 false.
+Proof. exact nufft_ok_example. Qed.
+Example C01_nufft_wt_hypotheses_hold :
+  (forall c : QCOps, conj (wtQ c) = wtQ c) /\
+  (forall (m : Z) (c : QCOps), 0 <= m -> wtQ (cdiv (cofZ m) c) = mul (nR m) (wtQ (cdiv (cofZ 1) c))).
+Proof. exact nufft_wt_hypotheses_hold. Qed.
+
+
+(* ================================================================================================================
+   THE ASSEMBLY (model/OpaqueStd.v, proofs/OpaqueStd.v): one standard oracle for all library-backed leaf classes and
+   one theorem for the whole operator language.
+
+   orc_std E arr : linop -> farr -> farr  dispatches FFT / IFFT to orc_fourier, the four convolution classes to orc_conv,
+   Interpolate / Gridding to orc_interp, Wavelet / InverseWavelet to orc_wavelet, NUFFT / NUFFTAdjoint to orc_nufft, all at
+   ONE environment E : std_env R C (numpy.fft twiddle table and scalings shared by fft and nufft; coordinate type C,
+   weight embedding, captured coordinate arrays and the parameter-code table shared by interpolation and nufft; the
+   Kaiser-Bessel / sqrt / pi / sinh oracles of nufft; the PyWavelets triple and the set of orthogonal wavelet codes).
+   proven_node_std E L = proven_all L || (one of the five family predicates at E)  is a BOOLEAN check of one node.
+   The value correspondence of every run evaluates den with this very oracle on hardware floats (run/RunOpaqueStd.v,
+   props/opaque_std.py, props/linop_common.py) against the real classes.
+   ================================================================================================================ *)
+From SV Require Import model.OpaqueStd proofs.OpaqueStd.
+
+(* orc_std IS each family's oracle on that family's constructors *)
+Theorem C01_std_oracle_is_the_family_oracle :
+  forall (R : Ops) (C : COps) (E : std_env R C) (arr : Z -> list Z -> R),
+    (forall L, fourier_leaf L = true -> forall x, orc_std E arr L x = orc_fourier (e_tw E) (e_isc E) (e_inv E) L x) /\
+    (forall L, proven_node_conv L = true -> forall x o, orc_std E arr L x o = orc_conv arr L x o) /\
+    (forall L, proven_node_interp L = true ->
+       forall x o, orc_std E arr L x o = orc_interp R C (e_wt E) (e_carr E) (e_kern_of E) (e_wp E) (e_wp E) L x o) /\
+    (forall L, is_wavelet_leaf L = true -> forall x, orc_std E arr L x = orc_wavelet (e_cs E) (e_WW E) (e_WWr E) L x) /\
+    (forall L, is_nufft L = true ->
+       forall x, orc_std E arr L x =
+                 orc_nufft R C (e_kb E) (e_wt E) (e_csqrt E) (e_cpi E) (e_csinh E) (e_tw E) (e_isc E) (e_inv E)
+                           (e_carr E) (e_pv E) (e_pv E) L x).
+Proof. exact orc_std_agrees. Qed.
+Print Assumptions C01_std_oracle_is_the_family_oracle.
+
+(* every library-backed leaf whose parameters its class accepts: <L x, y> = <x, L^H y>, under the oracle facts of the
+   environment and nothing else *)
+Theorem C01_every_library_backed_leaf_std :
+  forall (R : StarRing) (C : COps) (E : std_env R C) (arr : Z -> list Z -> R) (scal w : Z -> R),
+    std_oracle_ok R C E w ->
+    forall L, proven_node_opaque E L = true -> wf L = true -> apair R arr scal (orc_std E arr) L.
+Proof. exact std_nodes_opaque. Qed.
+Print Assumptions C01_every_library_backed_leaf_std.
+
+(* THE theorem.  For EVERY operator expression A over EVERY built-in class — Conj, +, -, scalar multiples, composition
+   with python's flattening, Hstack / Vstack / Diag along any axis or None, over all natively modelled leaves AND all
+   library-backed leaves — that is well formed and passes the boolean node check:
+       <A x, y> = <x, A^H y>  for all x, y, all captured arrays and scalars,  and  shapes (A^H) = swapped shapes of A,
+   with A^H the operator the modelled _adjoint_linop returns.  NO per-node hypothesis is left.  The hypotheses are the
+   oracle facts about the environment, stated once (std_oracle_ok, spelled out here):
+     - the interpolation weights and the 1/sqrt n scalings are real;
+     - numpy.fft computes the DFT: the twiddle table holds the powers of primitive n-th roots of unity, inv n = 1/n
+       (the form Prop_C05 / Prop_C06 assume);
+     - the real scalar m / c enters the data ring as m times 1 / c (Prop_C06);
+     - PyWavelets: for every valid call with an orthogonal wavelet, waverecn . array_to_coeffs is the adjoint of
+       coeffs_to_array . wavedecn on the padded box (Prop_C10). *)
+Theorem C01_adjoint_of_every_tree_std :
+  forall (R : StarRing) (C : COps) (E : std_env R C) (arr : Z -> list Z -> R) (scal w : Z -> R) (A : linop),
+    ((forall c : C, conj (e_wt E c) = e_wt E c) /\
+     (forall n, 0 < n -> conj (e_isc E n) = e_isc E n) /\
+     (e_tw E = twf R w /\ (forall n, 0 < n -> root_ok R n (w n)) /\ (forall n, 0 < n -> mul (e_inv E n) (nR n) = one)) /\
+     (forall (m : Z) (c : C), 0 <= m -> e_wt E (cdiv (cofZ m) c) = mul (nR m) (e_wt E (cdiv (cofZ 1) c))) /\
+     (forall s ax wv l, Forall (fun n => 0 < n) s ->
+        pywt_axes_ok (lenZ s) ax = true -> pywt_level_ok l = true -> e_orth E wv = true ->
+        forall a c : list Z -> R,
+          inner (e_cs E ax wv l (zshape s)) (e_WW E ax wv l (zshape s) a) c = inner (zshape s) a (e_WWr E ax wv l (zshape s) c))) ->
+    wf A = true ->
+    nodes_ok' (fun L => proven_node_std E L = true) A ->
+    (forall x y, inner (oshape_of A) (D R arr scal (orc_std E arr) A x) y
+                 = inner (ishape_of A) x (D R arr scal (orc_std E arr) (adj A) y)) /\
+    (forall o i, shapes A = Ok (o, i) -> shapes (adj A) = Ok (i, o)).
+Proof. exact adj_correct_std. Qed.
+Print Assumptions C01_adjoint_of_every_tree_std.
+
+(* without NUFFT / NUFFTAdjoint leaves nothing about numpy.fft's twiddle factors is needed: FFT^H = IFFT holds for ANY
+   table (the inverse kernel is the conjugate transpose by construction), only the scaling must be real *)
+Theorem C01_adjoint_of_every_tree_std_without_nufft :
+  forall (R : StarRing) (C : COps) (E : std_env R C) (arr : Z -> list Z -> R) (scal : Z -> R) (A : linop),
+    (forall c : C, conj (e_wt E c) = e_wt E c) ->
+    (forall n, 0 < n -> conj (e_isc E n) = e_isc E n) ->
+    (forall s ax wv l, Forall (fun n => 0 < n) s ->
+       pywt_axes_ok (lenZ s) ax = true -> pywt_level_ok l = true -> e_orth E wv = true ->
+       forall a c : list Z -> R,
+         inner (e_cs E ax wv l (zshape s)) (e_WW E ax wv l (zshape s) a) c = inner (zshape s) a (e_WWr E ax wv l (zshape s) c)) ->
+    wf A = true ->
+    nodes_ok' (fun L => proven_node_std E L = true /\ negb (is_nufft L) = true) A ->
+    (forall x y, inner (oshape_of A) (D R arr scal (orc_std E arr) A x) y
+                 = inner (ishape_of A) x (D R arr scal (orc_std E arr) (adj A) y)) /\
+    (forall o i, shapes A = Ok (o, i) -> shapes (adj A) = Ok (i, o)).
+Proof. exact adj_correct_std_no_nufft. Qed.
+Print Assumptions C01_adjoint_of_every_tree_std_without_nufft.
+
+(* non-vacuity.  An exact environment: data in Q(i), coordinates in Q, wt the inclusion, twiddle table w_4 = -i, w_2 = -1,
+   w_1 = 1 (the primitive roots Q(i) has) with exact 1/n and 1/sqrt n, the identity PyWavelets pair, rational kernels.
+   All hypotheses hold at once (the root-of-unity facts at n = 1, 2, 4); a mixed tree through all six combinators over
+   FFT (negative / repeated axes), IFFT (center=False), ConvolveData ('valid', strided) and its adjoint class,
+   Interpolate / Gridding, Wavelet / InverseWavelet and natively modelled leaves passes the check, and with NUFFT /
+   NUFFTAdjoint added it still does; the theorem applied to it leaves no hypothesis. *)
+Example C01_std_hypotheses_hold :
+  wt_real QIRing QCOps ex_env /\ wt_div_ok QIRing QCOps ex_env /\ isc_real QIRing QCOps ex_env /\
+  pywt_ok QIRing QCOps ex_env /\ pywt_reconstructs_all QIRing (e_WW ex_env) (e_WWr ex_env) (e_orth ex_env) /\
+  e_tw ex_env = twf QIRing ex_w /\
+  (forall n, n = 1 \/ n = 2 \/ n = 4 -> root_ok QIRing n (ex_w n) /\ mul (e_inv ex_env n) (nR n) = one) /\
+  (forall n, n = 1 \/ n = 4 -> mul (mul (e_isc ex_env n) (e_isc ex_env n)) (nR n) = one).
+Proof. exact ex_hypotheses_hold. Qed.
+
+Example C01_std_trees_accepted :
+  wf ex_tree_core = true /\ oshape_of ex_tree_core = [4; 4] /\ ishape_of ex_tree_core = [4; 4] /\
+  nodes_ok' (fun L => proven_node_std ex_env L = true /\ no_nufft_node L = true) ex_tree_core /\
+  wf ex_tree_nufft = true /\ nodes_ok' (fun L => proven_node_std ex_env L = true) ex_tree_nufft.
+Proof. exact ex_trees_accepted. Qed.
+
+Example C01_std_adjoint_of_mixed_tree : forall (arr : Z -> list Z -> QIRing) (scal : Z -> QIRing),
+  (forall x y, inner [4; 4] (D QIRing arr scal (orc_std ex_env arr) ex_tree_core x) y =
+               inner [4; 4] x (D QIRing arr scal (orc_std ex_env arr) (adj ex_tree_core) y)) /\
+  adj_shape_ok ex_tree_core.
+Proof. exact ex_adjoint_of_mixed_tree. Qed.
+Print Assumptions C01_std_adjoint_of_mixed_tree.
